@@ -18,6 +18,8 @@ def key_of_display(t):
 
 PREFIXES = [
     "While resolving references: ",
+    "Error while discovering nodes: ",
+    "Error while discovering classes: ",
 ]
 
 def classify(msg):
@@ -29,9 +31,12 @@ def classify(msg):
             if msg.startswith(p):
                 msg = msg[len(p):]
                 changed = True
-    m = re.match(r"^Error rendering node (.*?): (.*)$", msg, re.S)
-    if m and not msg.startswith("Error rendering node ") is False:
-        pass
+    m = re.match(r"^Error rendering node ([^:]*): (.*)$", msg, re.S)
+    if m:
+        return ["nodeFailed", m.group(1), classify(m.group(2))]
+    m = re.match(r"^Deserializing ([^:]*): (.*)$", msg, re.S)
+    if m:
+        return ["io", m.group(2)]
     if msg.startswith("Detected reference loop"):
         return ["loop"]
     m = re.match(r"^Token resolution exceeded recursion depth of (\d+) for parameter '(.*)'\. We've seen", msg, re.S)
@@ -90,10 +95,16 @@ COMPARED = {
     "unknownNode": [1],
     "collision": [1],
     "notMapping": [],
+    "nodeFailed": [1],
+    "io": [],
+    "other": [],
+    "config": [],
 }
 
 def err_projection(e):
     cls = e[0]
+    if cls == "other":
+        cls = "io"   # file-level / library-level failures are one class
     idx = COMPARED.get(cls)
     if idx is None:
         return e
